@@ -271,6 +271,17 @@ Qed.
 
 (* CompareSuffix's counter resets on a mismatch, so it ends as the run of equal
    labels nearest the root *)
+Lemma lcp_snoc l l' u v : length l = length l' ->
+  lcp (l ++ [u]) (l' ++ [v]) =
+  if (lcp l l' =? length l)%nat then (if label_eqb u v then S (length l) else length l) else lcp l l'.
+Proof.
+  revert l'; induction l as [|p l IH]; intros [|q l'] Hl; cbn in *; try discriminate.
+  - destruct (label_eqb u v); reflexivity.
+  - destruct (label_eqb p q); cbn; [|reflexivity].
+    rewrite IH by lia. destruct (lcp l l' =? length l)%nat; [|reflexivity].
+    destruct (label_eqb u v); reflexivity.
+Qed.
+
 Lemma run_walk_spec a b n : length a = length b ->
   run_walk a b n =
   let ra := rev (map fold_label a) in
@@ -281,26 +292,77 @@ Proof.
   injection Hl as Hl. rewrite IH by exact Hl. cbn zeta.
   assert (Hlen : length (rev (map fold_label a)) = length (rev (map fold_label b)))
     by (rewrite !rev_length, !map_length; exact Hl).
-  rewrite !app_length. cbn [length].
-  generalize dependent (rev (map fold_label b)). generalize (rev (map fold_label a)).
-  induction l as [|p l IHl]; intros [|q l'] Hlen; cbn in *; try discriminate.
-  - destruct (label_eqb (fold_label x) (fold_label y)); cbn; reflexivity.
-  - destruct (label_eqb p q); cbn; [|reflexivity].
-    specialize (IHl l' ltac:(lia)).
-    destruct (lcp l l' =? length l)%nat eqn:E1.
-    + apply Nat.eqb_eq in E1.
-      destruct (label_eqb (fold_label x) (fold_label y)) eqn:E2.
-      * rewrite E1 in *. rewrite Nat.eqb_refl in IHl.
-        destruct (lcp (l ++ [fold_label x]) (l' ++ [fold_label y]) =? length l + 1)%nat eqn:E3.
-        -- apply Nat.eqb_eq in E3. rewrite E3 in *. replace (S (length l + 1) =? S (length l + 1))%nat with true by (symmetry; apply Nat.eqb_refl). lia.
-        -- replace (S (lcp (l ++ [fold_label x]) (l' ++ [fold_label y])) =? S (length l + 1))%nat with false by (symmetry; apply Nat.eqb_neq; apply Nat.eqb_neq in E3; lia). lia.
-      * rewrite E1 in *. rewrite Nat.eqb_refl in IHl.
-        destruct (lcp (l ++ [fold_label x]) (l' ++ [fold_label y]) =? length l + 1)%nat eqn:E3.
-        -- apply Nat.eqb_eq in E3. rewrite E3 in *. replace (S (length l + 1) =? S (length l + 1))%nat with true by (symmetry; apply Nat.eqb_refl). lia.
-        -- replace (S (lcp (l ++ [fold_label x]) (l' ++ [fold_label y])) =? S (length l + 1))%nat with false by (symmetry; apply Nat.eqb_neq; apply Nat.eqb_neq in E3; lia). lia.
-    + destruct (lcp (l ++ [fold_label x]) (l' ++ [fold_label y]) =? length l + 1)%nat eqn:E3.
-      * apply Nat.eqb_eq in E3. rewrite E3 in *. replace (S (length l + 1) =? S (length l + 1))%nat with true by (symmetry; apply Nat.eqb_refl).
-        destruct (label_eqb (fold_label x) (fold_label y)); lia.
-      * replace (S (lcp (l ++ [fold_label x]) (l' ++ [fold_label y])) =? S (length l + 1))%nat with false by (symmetry; apply Nat.eqb_neq; apply Nat.eqb_neq in E3; lia).
-        destruct (label_eqb (fold_label x) (fold_label y)); lia.
+  rewrite lcp_snoc by exact Hlen. rewrite app_length. cbn [length].
+  set (L := length (rev (map fold_label a))) in *.
+  pose proof (lcp_le_l (rev (map fold_label a)) (rev (map fold_label b))) as Hle. fold L in Hle.
+  destruct (lcp (rev (map fold_label a)) (rev (map fold_label b)) =? L)%nat eqn:E.
+  - apply Nat.eqb_eq in E. rewrite E.
+    destruct (label_eqb (fold_label x) (fold_label y)).
+    + replace (S L =? L + 1)%nat with true by (symmetry; apply Nat.eqb_eq; lia). lia.
+    + replace (L =? L + 1)%nat with false by (symmetry; apply Nat.eqb_neq; lia). lia.
+  - apply Nat.eqb_neq in E.
+    replace (lcp (rev (map fold_label a)) (rev (map fold_label b)) =? L + 1)%nat with false
+      by (symmetry; apply Nat.eqb_neq; lia). reflexivity.
+Qed.
+
+Lemma lcp_skip_longer (a b : list label) : (length b <= length a)%nat ->
+  lcp (rev a) (rev b) = lcp (rev (skipn (length a - length b) a)) (rev b).
+Proof.
+  intros Hl. set (k := (length a - length b)%nat).
+  rewrite <- (firstn_skipn k a) at 1. rewrite rev_app_distr.
+  set (t := rev (skipn k a)). assert (Ht : length t = length (rev b))
+    by (unfold t; rewrite !rev_length, skipn_length; unfold k; lia).
+  clearbody t. generalize dependent (rev b). generalize (rev (firstn k a)). clear.
+  intros h rb; revert rb. induction t as [|x t IH]; intros [|y rb] Ht; cbn in *; try discriminate.
+  - destruct h; reflexivity.
+  - destruct (label_eqb x y); [|reflexivity]. f_equal. apply IH. lia.
+Qed.
+Lemma lcp_comm a b : lcp a b = lcp b a.
+Proof.
+  revert b; induction a as [|x a IH]; intros [|y b]; cbn; try reflexivity.
+  rewrite !label_eqb_lcmp, (lcmp_antisym x y). destruct (lcmp x y); cbn; try reflexivity. f_equal. apply IH.
+Qed.
+
+Lemma go_compare_suffix_spec a b : go_compare_suffix a b = lcp (canon a) (canon b).
+Proof.
+  unfold go_compare_suffix, canon.
+  rewrite run_walk_spec by (rewrite !skipn_length; lia). cbn zeta.
+  rewrite <- !skipn_map.
+  set (fa := map fold_label a). set (fb := map fold_label b).
+  assert (La : length fa = length a) by apply map_length.
+  assert (Lb : length fb = length b) by apply map_length.
+  rewrite <- La, <- Lb.
+  assert (Hz : forall m, (if (m =? length (rev (skipn (length fa - length fb) fa)))%nat then (m + 0)%nat else m) = m)
+    by (intros m; destruct (_ =? _)%nat; lia).
+  rewrite Hz. clear Hz.
+  destruct (Nat.le_ge_cases (length fb) (length fa)) as [H|H].
+  - replace (length fb - length fa)%nat with O by lia. cbn [skipn]. symmetry. apply lcp_skip_longer, H.
+  - replace (length fa - length fb)%nat with O by lia. cbn [skipn].
+    rewrite (lcp_comm (rev fa) (rev fb)), (lcp_comm (rev fa)). symmetry. apply lcp_skip_longer, H.
+Qed.
+
+(* ------------------------------------------------------------ nsecCovers *)
+(* strictly inside the interval owner -> next, which wraps when next <= owner
+   (the last NSEC of a zone points back to the apex; owner = next is the
+   one-name zone whose single NSEC covers everything but its owner) *)
+Definition strictly_inside (o nx x : rname) : Prop :=
+  match ncmp o nx with
+  | Lt => ncmp o x = Lt /\ ncmp x nx = Lt
+  | Gt => ncmp o x = Lt \/ ncmp x nx = Lt
+  | Eq => x <> o
+  end.
+
+Lemma nsec_covers_spec o nx x : nsec_covers o nx x = true <-> strictly_inside o nx x.
+Proof.
+  unfold nsec_covers, covers_of_cmps, strictly_inside.
+  rewrite (ncmp_antisym o x).
+  destruct (ncmp o nx) eqn:Eon.
+  - destruct (ncmp o x) eqn:E; cbn.
+    + apply ncmp_eq in E. subst. split; [discriminate | intros H; exfalso; apply H; reflexivity].
+    + split; [intros _ ->; rewrite ncmp_refl in E; discriminate | reflexivity].
+    + split; [intros _ ->; rewrite ncmp_refl in E; discriminate | reflexivity].
+  - destruct (ncmp o x), (ncmp x nx); cbn; split; intros H; try discriminate; try reflexivity; try tauto;
+      destruct H; discriminate.
+  - destruct (ncmp o x), (ncmp x nx); cbn; split; intros H; try discriminate; try reflexivity; try tauto;
+      destruct H; discriminate.
 Qed.
